@@ -23,6 +23,9 @@ ASSUMPTIONS = ["E6 (NFVS reduction theorem), E1, E4, E5, E7 as for C01"]
 CASE_TIMEOUT = {"quick": 40, "thorough": 120}
 
 
+RARE_CFG = 0.1     # share of cases run under rarely used option values (same results expected)
+
+
 def budget(tier):
     return 1500 if tier == "quick" else 15000
 
